@@ -6,7 +6,8 @@ DbApiCalls    == {"connect", "cursor", "execute", "executemany", "commit", "roll
 SessionShapes == {"read-only", "optimistic write", "immediate", "serializable", "ddl", "generator", "nested"}
 AllForms      == {"cm", "dec", "gen", "coroutine"}
 AllKinds      == {"opt", "imm", "ser", "ddl"}          \* ser (serializable=True) is `imm` for the protocol (D5)
-BodyOutcomes  == {"return", "allowed", "retryable", "other", "commit-error"}
+\* "base": the body is aborted by a BaseException that is not an Exception (KeyboardInterrupt, SystemExit, GeneratorExit ...)
+BodyOutcomes  == {"return", "allowed", "retryable", "other", "base", "commit-error"}
 ThreadCounts  == {1, 2, 3}
 ForkPoints    == {"idle", "pooled", "open-transaction", "in-session-before-db", "in-session-after-read"}
 =============================================================================
